@@ -129,6 +129,7 @@ ADDENDA = {
 }
 
 ADDENDA2 = {
+ "C19": "One forced preemption before every source line a call executes inside hl7apy (sys.settrace, no hooks): A stops, the partner - an ordinary call or a bulk of calls on fresh values - runs completely, A resumes.",
  "C16": "Quick tier frames messages of 2.8.1 and 2.8.2 too (five encoding characters, a version that is no decimal number).",
  "C11": "Rounds of 'write through the pending chain, delete its top element' before the same write: what was created and deleted before does not matter.",
  "C07": "MSH-12 with a second component written with the message's own component separator; an event no structure is known for (the parser's fallback).",
